@@ -38,7 +38,12 @@ func (cer *CER) Parse(m *diam.Message, localRole Role) (failedAVP *diam.AVP, err
 		return nil, err
 	}
 	if cer.InbandSecurityID != nil {
-		if v := cer.InbandSecurityID.Data.(datatype.Unsigned32); v != 0 {
+		v, ok := cer.InbandSecurityID.Data.(datatype.Unsigned32)
+		if !ok {
+			// e.g. sent with the V flag: not the Unsigned32 the dictionary defines
+			return cer.InbandSecurityID, &ErrUnexpectedAVP{cer.InbandSecurityID}
+		}
+		if v != 0 {
 			return nil, ErrNoCommonSecurity
 		}
 	}
